@@ -286,7 +286,7 @@ func (w *world) eventGone(e *evModel, reason string) {
 }
 
 var recModel = kit.NewRecorder("C18", "model",
-	"two connected nodes; 2 producers and 2 local consumers on node A, 2 remote consumers on node B (all trap exits), 2 event names; a generated history of <= 35 steps of {register (buffer 0-4, notify on/off), publish by the owner / by a delegate holding the token / with a stale or foreign token / by the owner with the token of the other event, link- or monitor-subscribe, unsubscribe, unregister (owner and non-owner), kill or crash the producer, kill a consumer}; every step runs to the expected observations; "+
+	"two connected nodes; 2 producers and 2 local consumers on node A, 2 remote consumers on node B (all trap exits), 2 event names; a generated history of <= 35 steps of {register (buffer 0-4, notify on/off; refused when the name is taken, by either producer), publish by the owner / by a delegate holding the token / with a stale or foreign token / by the owner with the token of the other event, link- or monitor-subscribe, unsubscribe, unregister (owner and non-owner), kill or crash the producer, kill a consumer}; every step runs to the expected observations; "+
 		"oracle: reference model - each consumer's received list equals the publications between its subscribe and unsubscribe in order, subscribe returns exactly the last min(N, published) messages in order, a wrong token is an error and nothing is delivered, unregister/owner death gives each subscriber exactly one exit (link) or down (monitor) with the reason, the producer's start/stop notifications equal the model's 0->1 / 1->0 transitions (a stop caused by a subscriber's death is optional); nothing else arrives; "+
 		"non-trivial = a subscribe between two publications of an event with buffer > 0, or >= 2 subscribers at once; distinct by history")
 
@@ -411,12 +411,21 @@ func TestModel(t *testing.T) {
 			e := w.events[rapid.IntRange(0, 1).Draw(t, "event")]
 			switch op {
 			case "register":
-				if e.registered {
-					continue
-				}
 				pi := rapid.IntRange(0, 1).Draw(t, "producer")
 				p := w.producers[pi]
 				if !p.alive {
+					continue
+				}
+				if e.registered {
+					// the name is taken (by this process or the other one): refused, and nothing changes -
+					// neither now nor when the refused process terminates later
+					var err error
+					w.inProc(p, func(a *kit.Actor) { _, err = a.RegisterEvent(e.name, gen.EventOptions{Buffer: 1, Notify: !e.notify}) })
+					if err == nil {
+						w.fatalf("RegisterEvent(%s) by %s succeeded although the event is registered by %s", e.name, p.label, w.producers[e.owner].label)
+					}
+					w.logf("register-taken(%s,%s)", e.name, p.label)
+					w.sync()
 					continue
 				}
 				buf := rapid.IntRange(0, 4).Draw(t, "buffer")
